@@ -694,6 +694,14 @@ func c02R2(c *eng.Ctx, filter, cl *ssa.Function) {
 		c.Check("R2", cl, "malformed impersonation ⇒ answered, not forwarded", bc.Pos(), why == "", "on the err != nil edge of buildImpersonationRequests the filter must write an error and return"+c02Found(why))
 	}
 
+	// (1b) nothing is forwarded without having been parsed: the parse is the only place that
+	// recognises a malformed header combination, so every forward lies behind it
+	for i, nx := range nexts {
+		ok := eng.AlwaysBefore(cl, nx.(ssa.Instruction), func(ins ssa.Instruction) bool { return ins == ssa.Instruction(bc) })
+		c.Check("R2", cl, fmt.Sprintf("forward#%d only after the impersonation headers were parsed", i+1), nx.Pos(), ok,
+			"a path reaches the next handler without buildImpersonationRequests: a malformed impersonation (groups/extras without a user) on that path is forwarded instead of being answered")
+	}
+
 	// (2) the authorisation loop
 	var auths []*ssa.Call
 	for _, ci := range eng.CallsTo(cl, c02Authorize) {
@@ -1141,6 +1149,13 @@ func c02R3(c *eng.Ctx) {
 			}
 			if why == "" && !onClone(eng.Receiver(ci)) {
 				why = "the header written is not the header of a clone of the request (RoundTrippers must not mutate the caller's request, and the client's map would be shared)"
+			}
+			// a write executed once per value of a multi-valued attribute must accumulate: Set with
+			// a key that does not change in the innermost loop keeps only the last value
+			if why == "" && verb == "Set" {
+				if l := eng.InnermostLoop(ci.Block()); l != nil && eng.LoopInvariant(a[0], l) && !eng.LoopInvariant(a[1], l) {
+					why = "Header.Set inside a loop over the attribute's values with a key that is the same on every iteration: only the last value reaches the upstream (must be Add)"
+				}
 			}
 			seen[what]++
 			construct := fmt.Sprintf("%s %s#%d from the context user, on a clone", verb, what, seen[what])
